@@ -87,9 +87,15 @@ pub struct Server {
     pub dir: PathBuf,
     pub close_requested: Arc<AtomicBool>,
     pub manager: Arc<kvarn::shutdown::Manager>,
+    /// opens the gate of `t-slow` (concurrent sessions only)
+    pub gate: tokio::sync::watch::Sender<bool>,
 }
 impl Server {
     pub async fn start() -> Option<Server> {
+        Self::start_with(false).await
+    }
+    /// `conc`: the server of the concurrent sessions keeps kvarn's own `wait` and has `t-slow`.
+    pub async fn start_with(conc: bool) -> Option<Server> {
         let dir = run_dir().join(format!("s{}", SEQ.fetch_add(1, Ordering::SeqCst)));
         std::fs::create_dir_all(&dir).ok()?;
         let path = dir.join("ctl.sock");
@@ -122,14 +128,30 @@ impl Server {
                 mk(move |_| PluginResponse::ok(count.fetch_add(1, Ordering::SeqCst).to_string())),
             )
             .add_plugin("", mk(|a| PluginResponse::ok(args_data(&a))))
-            .add_plugin("reload", mk(|_| PluginResponse::ok_empty()))
-            .add_plugin("wait", mk(|_| PluginResponse::ok_empty()));
+            .add_plugin("reload", mk(|_| PluginResponse::ok_empty()));
+        let (gate, gate_rx) = tokio::sync::watch::channel(false);
+        let cfg = if conc {
+            let slow: Plugin = Box::new(move |args, _ports, _shutdown, _plugins| {
+                let mut rx = gate_rx.clone();
+                Box::pin(async move {
+                    while !*rx.borrow() {
+                        if rx.changed().await.is_err() {
+                            break;
+                        }
+                    }
+                    PluginResponse::ok(args_data(&args))
+                }) as kvarn::extensions::RetSyncFut<'_, _>
+            });
+            cfg.add_plugin("t-slow", slow)
+        } else {
+            cfg.add_plugin("wait", mk(|_| PluginResponse::ok_empty()))
+        };
         let manager = cfg.execute().await;
         // the listener is bound inside a spawned task: wait until the kernel shows it
         if !wait_listening(&path, true, Duration::from_secs(10)).await {
             return None;
         }
-        Some(Server { path, dir, close_requested, manager })
+        Some(Server { path, dir, close_requested, manager, gate })
     }
     /// Did a plugin ask for the socket to be closed (the harness's own closing plugins set a flag,
     /// kvarn's `shutdown` is visible in the shutdown manager)?  If so, wait until the accept loop
@@ -179,6 +201,195 @@ fn session(x: &X) -> X {
     })
 }
 
+
+// ---- concurrent sessions ---------------------------------------------------------------------------
+//
+// `ctl.conc`: `(L step ...)`, step = `(L (N op) (N conn) [(B bytes)])`:
+//   0 open k | 1 write k bytes | 2 fin k | 3 await k | 4 shutdown | 5 release | 6 drop k |
+//   7 req k bytes (= open, write, fin, await) | 8 send k bytes (= open, write, fin) | 9 peek k
+// Output: one `(L (N k) reply)` per await / req / peek step, reply = `(L (N 0) (B data))`,
+// `(L (N 1))` connect refused / no listener, `(L (N 2))` I/O error, `(L (N 3))` nothing within the
+// bounded wait (`KV_C19_WAIT_MS`, default 6000), `(L (N 4))` nothing yet (peek), `(L (N 5))` no such connection.
+use tokio::io::{AsyncReadExt, AsyncWriteExt};
+use tokio::net::UnixStream;
+
+enum Conn {
+    Refused,
+    Failed,
+    Open(UnixStream, Vec<u8>),
+    Done(X),
+}
+
+fn wait_ms() -> u64 {
+    std::env::var("KV_C19_WAIT_MS").ok().and_then(|v| v.parse().ok()).unwrap_or(6000)
+}
+
+struct Conc {
+    server: Server,
+    conns: std::collections::HashMap<u64, Conn>,
+    /// after the first bounded wait that ran out the verdict is decided: do not spend the full wait again
+    wait: Duration,
+    /// bounded waits that ran out; after 10 of them the rest of the script is not executed
+    ran_out: u32,
+}
+impl Conc {
+    async fn open(&mut self, k: u64) {
+        let c = match tokio::time::timeout(self.wait, UnixStream::connect(&self.server.path)).await {
+            Ok(Ok(c)) => Conn::Open(c, Vec::new()),
+            Ok(Err(e)) => match e.kind() {
+                std::io::ErrorKind::NotFound | std::io::ErrorKind::ConnectionRefused => Conn::Refused,
+                _ => Conn::Failed,
+            },
+            Err(_) => {
+                self.ran_out += 1;
+                Conn::Failed
+            }
+        };
+        self.conns.insert(k, c);
+    }
+    async fn write(&mut self, k: u64, b: &[u8]) {
+        let wait = self.wait;
+        if let Some(Conn::Open(c, _)) = self.conns.get_mut(&k) {
+            match tokio::time::timeout(wait, c.write_all(b)).await {
+                Ok(Ok(())) => {}
+                Ok(Err(_)) => {
+                    self.conns.insert(k, Conn::Failed);
+                }
+                Err(_) => {
+                    self.ran_out += 1;
+                    self.conns.insert(k, Conn::Failed);
+                }
+            }
+        }
+    }
+    async fn fin(&mut self, k: u64) {
+        if let Some(Conn::Open(c, _)) = self.conns.get_mut(&k) {
+            if c.shutdown().await.is_err() {
+                self.conns.insert(k, Conn::Failed);
+            }
+        }
+    }
+    /// reads what is there until EOF or until `limit` has passed
+    async fn read(&mut self, k: u64, limit: Duration, pending: u64) -> X {
+        let r = match self.conns.get_mut(&k) {
+            None => X::L(vec![X::N(5)]),
+            Some(Conn::Refused) => X::L(vec![X::N(1)]),
+            Some(Conn::Failed) => X::L(vec![X::N(2)]),
+            Some(Conn::Done(x)) => x.clone(),
+            Some(Conn::Open(c, buf)) => {
+                match tokio::time::timeout(limit, c.read_to_end(buf)).await {
+                    Ok(Ok(_)) => {
+                        let x = X::L(vec![X::N(0), X::B(std::mem::take(buf))]);
+                        self.conns.insert(k, Conn::Done(x.clone()));
+                        x
+                    }
+                    Ok(Err(_)) => {
+                        self.conns.insert(k, Conn::Failed);
+                        X::L(vec![X::N(2)])
+                    }
+                    // read_to_end is cancel safe: what was read stays in `buf`
+                    Err(_) => {
+                        if pending == 3 {
+                            self.wait = Duration::from_millis(400);
+                            self.ran_out += 1;
+                        }
+                        if buf.is_empty() {
+                            X::L(vec![X::N(pending.into())])
+                        } else {
+                            // a reply that was started but not finished: say so
+                            X::L(vec![X::N(pending.into()), X::B(buf.clone())])
+                        }
+                    }
+                }
+            }
+        };
+        self.server.settle().await;
+        X::L(vec![X::N(k.into()), r])
+    }
+}
+
+fn conc(x: &X) -> X {
+    let steps = match x.as_l() {
+        Some(l) => l,
+        None => return X::bad(),
+    };
+    let mut script: Vec<(u64, u64, Vec<u8>)> = Vec::with_capacity(steps.len());
+    for s in steps {
+        let l = match s.as_l() {
+            Some(l) if l.len() >= 2 => l,
+            _ => return X::bad(),
+        };
+        let (op, k) = match (&l[0], &l[1]) {
+            (X::N(op), X::N(k)) => (*op as u64, *k as u64),
+            _ => return X::bad(),
+        };
+        let b = match l.get(2) {
+            Some(b) => match b.as_b() {
+                Some(b) => b.to_vec(),
+                None => return X::bad(),
+            },
+            None => Vec::new(),
+        };
+        script.push((op, k, b));
+    }
+    runtime().block_on(async move {
+        let server = match Server::start_with(true).await {
+            Some(s) => s,
+            None => return X::L(vec![X::N(93)]),
+        };
+        let mut c = Conc { server, conns: Default::default(), wait: Duration::from_millis(wait_ms()), ran_out: 0 };
+        let mut out = Vec::new();
+        for (op, k, b) in script {
+            if c.ran_out >= 10 {
+                break;
+            }
+            match op {
+                0 => c.open(k).await,
+                1 => c.write(k, &b).await,
+                2 => c.fin(k).await,
+                3 => {
+                    let w = c.wait;
+                    out.push(c.read(k, w, 3).await)
+                }
+                4 => {
+                    c.server.manager.shutdown();
+                    wait_listening(&c.server.path, false, Duration::from_secs(10)).await;
+                }
+                5 => {
+                    let _ = c.server.gate.send(true);
+                }
+                6 => {
+                    c.conns.remove(&k);
+                }
+                7 => {
+                    c.open(k).await;
+                    c.write(k, &b).await;
+                    c.fin(k).await;
+                    let w = c.wait;
+                    out.push(c.read(k, w, 3).await)
+                }
+                8 => {
+                    c.open(k).await;
+                    c.write(k, &b).await;
+                    c.fin(k).await;
+                }
+                9 => out.push(c.read(k, Duration::from_millis(30), 4).await),
+                _ => return X::bad(),
+            }
+        }
+        c.conns.clear();
+        if c.ran_out > 0 {
+            // the socket does not answer: do not ask it to shut down
+            c.server.manager.shutdown();
+            wait_listening(&c.server.path, false, Duration::from_secs(2)).await;
+            let _ = std::fs::remove_dir_all(&c.server.dir);
+        } else {
+            c.server.stop().await;
+        }
+        X::L(out)
+    })
+}
+
 fn utf8(x: &X) -> X {
     match x.as_b() {
         Some(b) => X::opt(std::str::from_utf8(b).ok().map(crate::c19::x_str)),
@@ -196,6 +407,7 @@ fn utf8enc(x: &X) -> X {
 pub fn dispatch(comp: &str, x: &X) -> Option<X> {
     Some(match comp {
         "ctl.session" => session(x),
+        "ctl.conc" => conc(x),
         "ctl.utf8" => utf8(x),
         "ctl.utf8enc" => utf8enc(x),
         _ => return None,
